@@ -113,6 +113,41 @@ def extra_run(man, tier, seed):
                 z = [rnd.gauss(0, 1) for _ in range(d)]
                 data += [sum(A[r][c] * z[c] for c in range(d)) + r for r in range(d)]
             add('mardia - %d %d %s' % (nn, d, L(data)), 'mardia', None)
+
+    # ---- Empirical through its three public constructors (`new`, `from_params` on an arbitrary — unsorted, reversed, duplicated —
+    #      parameter vector, `from_params(emit_params())`): same object, same answers; ECDF oracle away from the sample
+    for _ in range(max(12, n // 4)):
+        es = sample(size(), rnd.random() < .4)
+        r = rnd.random()
+        if r < .3:
+            rnd.shuffle(es)
+        elif r < .45:
+            es = sorted(es) + [rnd.uniform(min(es) - 2, max(es) + 2) for _ in range(rnd.randint(1, 4))]     # appended observations
+        elif r < .6:
+            es = es + es[:rnd.randint(1, len(es))]                                                            # duplicated
+        lo, hi = min(es), max(es)
+        qs = [rnd.choice(es) for _ in range(3)] + [rnd.uniform(lo - 1, hi + 1) for _ in range(5)] + [lo, hi, lo - 1.0, hi + 1.0]
+        qs += [(a_ + b_) / 2 for a_, b_ in zip(sorted(es), sorted(es)[1:])][:6]
+        base = len(lines)
+        for ctor in ('new', 'from_params', 'roundtrip'):
+            add('empirical.queries - %s %s %s' % (ctor, L(es), L(qs)), 'emp.queries', (ctor, es, qs, base))
+        words = [rnd.getrandbits(64) for _ in range(6)]
+        for ctor in ('new', 'from_params'):
+            add('empirical.draws - %s %s L%d %s' % (ctor, L(es), len(words), ' '.join(map(str, words))), 'emp.draws', (ctor, es, base + 3))
+    # ---- two-sample symmetry: ks_two_sample(a, b, Less) = ks_two_sample(b, a, Greater) (and two-sided in both orders), with
+    #      the FIRST sample the shorter one in most cases; one-sided asymptotic p-value against Hodges' closed form
+    swap = {'less': 'greater', 'greater': 'less', 'two_sided': 'two_sided'}
+    for it in range(max(16, n // 3)):
+        na = rnd.randint(1, 40)
+        nb = na + rnd.randint(1, 60) if rnd.random() < .8 else rnd.randint(1, 40)
+        t = rnd.random() < .2
+        a_, b_ = sample(na, t), sample(nb, t)
+        if rnd.random() < .6:
+            b_ = [y + rnd.choice([.05, .3, 1.0]) for y in b_]
+        mode = 'asymptotic' if rnd.random() < .7 else rnd.choice(MODES)
+        alt = rnd.choice(['less', 'greater']) if rnd.random() < .8 else 'two_sided'
+        add('ks_two_sample - %s %s %s %s' % (L(a_), L(b_), mode, alt), 'ks2sym', (a_, b_, mode, alt, None))
+        add('ks_two_sample - %s %s %s %s' % (L(b_), L(a_), mode, swap[alt]), 'ks2sym', (b_, a_, mode, swap[alt], len(lines) - 1))
     impl, model = run_pair(lines)
     # oracle ops on the driver
     olines = []
@@ -145,8 +180,21 @@ def extra_run(man, tier, seed):
             d = {'site': site, 'case': line[:900], 'impl': a, 'expected': what, 'observed': observed, 'detail': ''}
             d.update(extra or {})
             failures.append(d)
+
+        def hodges(vals, sizes, mode, alt, info):
+            """one-sided asymptotic p-value against the closed form (Hodges 1958 / SciPy): m = LARGER, n = smaller size"""
+            if len(vals) == 2 and mode == 'asymptotic' and alt != 'two_sided':
+                mm, nn = float(max(sizes)), float(min(sizes))
+                z = math.sqrt(mm * nn / (mm + nn)) * vals[0]
+                pe = math.exp(-2.0 * z * z - 2.0 * z * (mm + 2.0 * nn) / math.sqrt(mm * nn * (mm + nn)) / 3.0)
+                if not (abs(vals[1] - pe) <= 1e-10 * max(1.0, pe)):
+                    fail('ks_two_sample', f"Hodges' one-sided asymptotic p-value {pe!r} (m = larger, n = smaller size)", 'pvalue_asymptotic', info)
         if a in ('PANIC', 'HANG', 'ABORT'):
-            if k in ('ks_two_sample', 'ks2ij'):
+            if k == 'ks2sym':
+                if mt[4] is not None and a != impl[mt[4]]:
+                    failures.append({'site': 'ks_two_sample', 'case': line[:900], 'impl': a, 'expected': 'same outcome as the swapped call: ' + impl[mt[4]], 'observed': 'symmetry', 'detail': ''})
+                fail('ks_two_sample', 'a statistic and a p-value', 'panic', {'unequal': len(mt[0]) != len(mt[1]), 'mode': mt[2], 'alt': mt[3], 'sizes': (len(mt[0]), len(mt[1]))})
+            elif k in ('ks_two_sample', 'ks2ij'):
                 m_ = mt
                 unequal = (len(m_[0]) != len(m_[1])) if k == 'ks_two_sample' else (m_[0] != m_[1])
                 fail('ks_two_sample', 'a statistic and a p-value', 'panic', {'unequal': unequal, 'mode': m_[-2], 'alt': m_[-1],
@@ -173,6 +221,7 @@ def extra_run(man, tier, seed):
                     'ties': k == 'ks_two_sample' and (len(set(m_[0])) < len(m_[0]) or len(set(m_[1])) < len(m_[1]) or bool(set(m_[0]) & set(m_[1])))}
             if len(vals) == 2 and not (-1e-12 <= vals[1] <= 1.0 + 1e-12):
                 fail('ks_two_sample', 'p-value in [0,1]', 'pvalue_range', info)
+            hodges(vals, sizes, m_[-2], m_[-1], info)
             if len(vals) == 2 and k == 'ks2ij' and m_[4] in ('exact', 'auto') and max(sizes) <= 25:
                 mm, nn, ii, jj = m_[0], m_[1], m_[2], m_[3]
                 lcm = mm * nn // gcd(mm, nn)
@@ -182,6 +231,50 @@ def extra_run(man, tier, seed):
                 pt = 1.0 if h == 0 else 1.0 - inside(mm, nn, h, two) / comb(mm + nn, nn)
                 if stat >= 0 and 0 <= vals[1] <= 1 and not (abs(vals[1] - pt) <= 1e-9):
                     fail('ks_two_sample', f'exact p-value {pt!r}', 'pvalue', info)
+        elif k == 'emp.queries':
+            ctor, es, qs, base = mt
+            ref = impl[base]                      # the `new` line of this group
+            if ctor != 'new' and a != ref:
+                fail('Empirical.from_params', 'the answers of Empirical::new on the same sample: ' + ref[:300], 'ctor_vs_new', {'ctor': ctor})
+            nq = len(qs)
+            if len(vals) == nq + 4:
+                srt = sorted(es)
+                for q, c in zip(qs, vals[:nq]):
+                    if q not in es:
+                        e = sum(1 for x in es if x <= q) / len(es)
+                        if c != e:
+                            fail('Empirical.from_params' if ctor != 'new' else 'Empirical.cdf', f'#{{x_i <= {q!r}}}/n = {e!r}', 'ecdf',
+                                 {'ctor': ctor, 'query': q, 'got': c})
+                            break
+                m_ref = 0.0
+                for x in srt:
+                    m_ref += x
+                m_ref /= len(srt)
+                v_ref = 0.0
+                for x in srt:
+                    v_ref += (x - m_ref) * (x - m_ref)
+                v_ref /= len(srt)
+                if not (abs(vals[nq] - m_ref) <= 1e-12 * max(1.0, abs(m_ref)) and abs(vals[nq + 1] - v_ref) <= 1e-12 * max(1.0, abs(v_ref))):
+                    fail('Empirical.from_params' if ctor != 'new' else 'Empirical.mean', f'mean {m_ref!r}, variance {v_ref!r}', 'moments', {'ctor': ctor})
+                if (vals[nq + 2], vals[nq + 3]) != (srt[0], srt[-1]):
+                    fail('Empirical.from_params' if ctor != 'new' else 'Empirical.new', f'range ({srt[0]!r}, {srt[-1]!r})', 'range', {'ctor': ctor})
+        elif k == 'emp.draws':
+            ctor, es, ref_idx = mt
+            if ctor != 'new' and a != impl[ref_idx]:
+                fail('Empirical.from_params', 'the draws of Empirical::new(xs) under the same generator: ' + impl[ref_idx][:300], 'draws', {'ctor': ctor})
+            if any(v not in es for v in vals):
+                fail('Empirical.draw', 'an observation of the sample', 'draw_support', {'ctor': ctor})
+        elif k == 'ks2sym':
+            a_, b_, mode, alt, partner = mt
+            sizes = (len(a_), len(b_))
+            info = {'unequal': sizes[0] != sizes[1], 'mode': mode, 'alt': alt, 'sizes': sizes,
+                    'ties': len(set(a_)) < len(a_) or len(set(b_)) < len(b_) or bool(set(a_) & set(b_))}
+            if partner is not None:
+                okp, dp = cmp_tokens(a, impl[partner], 1e-12, 1e-15)
+                if not okp:
+                    fail('ks_two_sample', 'ks_two_sample(xs, ys, Less) = ks_two_sample(ys, xs, Greater) (two-sided: either order); the swapped call '
+                         + lines[partner][:40] + '… gave ' + impl[partner], 'symmetry', info)
+            hodges(vals, sizes, mode, alt, info)
         elif k == 'empirical.cdf':
             e = tok_to_float(o) if o.startswith('x') else None
             es, x = mt
